@@ -776,7 +776,11 @@ class StmtMixin:
         ty = val.ty
         hint = None
         if self.cur_contract is not None:
-            hint = getattr(self.cur_contract, 'local_types', {}).get(name)
+            lt = getattr(self.cur_contract, 'local_types', {})
+            hint = lt.get(name)
+            if hint is None:
+                from .state import ALIASES
+                hint = next((lt[o] for o, n_ in ALIASES.items() if n_ == name and o in lt), None)
         if hint is not None:
             ty = hint
         if isinstance(val, VNone) and hint is None:
@@ -928,6 +932,10 @@ class StmtMixin:
             for k, v in st.frames[fid].items():
                 if not k.startswith('$'):
                     env[k] = v
+        from .state import ALIASES
+        for old, new in ALIASES.items():
+            if new in env and old not in env:
+                env[old] = env[new]        # contracts know a renamed local under its old name
         return env
 
     def s_For(self, st, n):
